@@ -1904,15 +1904,15 @@ theorem restart_maximal_run_exists {fl : Flags} (hg : fl.readyGuarded = true) (h
     gone), `restart_maximal_run_exists`.  `runW_bound` is the bound for an arbitrary reachable world satisfying `Good`,
     for runs that are assumed not to adopt.
 
-    MISSING: adoption (`NoLivePid` false).  After `startJobA` with `adopt = true` the record is RUNNING at `codeWait` with
-    `launches = 0`, `held = []`, dependencies registered but possibly unsatisfied.  This contradicts `JLocal`
-    (`pcRun → launches = 1`), `JDeep.runRunning/readyDeps` (RUNNING ⇒ every dependency OK), `XInv` (an adopted job can
-    be set to ERROR by a failing dependency while `codeWait`, then DONE/ERROR by the exit code) and the capacity
-    invariant of `SchedCap` (`held = range deps.length` in `codeWait`).  Each of these layers (and `mu`: an adopted job
-    never passes `lockEnter`) needs an "adopted" variant of its `codeWait` clause; the proofs of
-    `Proofs/SchedFinal.lean` cannot be reused as they are.  On the world side, `PidOwn`/`LockLink`/`stuck_quiescent`
-    would need the adopted process as a second kind of owner of a live pid file (it may hold or wait for the run lock
-    while the adopting job sits in `codeWait`, which `stuck_quiescent` already tolerates: a `code` thread blocked by a
-    live process is blocked by a process that can move or by a lock whose holder can move). -/
+    ADOPTION (`NoLivePid` false) is treated in two further stages by a simulation into M2 rather than by generalising the
+    invariants clause by clause: after `startJobA` with `adopt = true` the record is RUNNING at `codeWait` with
+    `launches = 0`, `held = []`, dependencies registered but possibly unsatisfied, which contradicts `JLocal`,
+    `JDeep.runRunning/readyDeps`, `XInv` and the capacity invariant; on an abstract state the job is a job WITHOUT
+    dependencies that was launched, and every invariant of this file and of `Proofs/SchedFinal.lean` is used as it is.
+    * `Proofs/RestartAbs.lean … RestartPhase.lean` (`RestartLive.restart_run_finiteA` …, `C11.restart_*_adopt_partial`): under
+      the hypothesis that the job dependencies of an adoptable job have their markers;
+    * `Proofs/RestartAbsF.lean … RestartPhaseF.lean` (`RestartFull.restart_run_finiteF`, `restart_maximal_runF`,
+      `restart_maximal_run_existsF`; property theorems `C11.restart_run_finite`, `restart_maximal_run_all_final`,
+      `restart_maximal_run_exists`): the FULL statement, hypotheses of `restart_run_finite_partial` minus `NoLivePid`. -/
 
 end XpmVerif.RestartTerm
